@@ -37,7 +37,7 @@ type Config struct {
 }
 
 func DefaultConfig() Config {
-	return Config{Workers: 16, MaxSteps: 3_000_000, QueryTimeoutMs: 20000, MaxConcretize: 64, MaxAlloc: 1 << 16, IfConvert: true, MaxPaths: 2_000_000, HardTimeoutS: 60, ValidateSamples: 40}
+	return Config{Workers: 16, MaxSteps: 3_000_000, QueryTimeoutMs: 20000, MaxConcretize: 64, MaxAlloc: 1 << 20, IfConvert: true, MaxPaths: 2_000_000, HardTimeoutS: 60, ValidateSamples: 40}
 }
 
 type Stats struct {
